@@ -69,7 +69,7 @@ class OwnServer(L.FakeHttpServer):
 
 
 def st_case():
-    step = st.sampled_from(['commit', 'commit', 'invoke', 'renew', 'status', 'get', 'unsubscribe_one'])
+    step = st.sampled_from(['commit', 'commit', 'invoke', 'renew', 'status', 'get', 'unsubscribe_one', 'restart'])
     return st.fixed_dictionaries({
         'provider_tls': st.booleans(),
         'consumer': st.sampled_from(['none', 'optional', 'enforced', 'enforced']),
@@ -141,6 +141,23 @@ def run_case(case):  # noqa: C901, PLR0912, PLR0915
                 out.append((f'{P}/compatible-configuration-does-not-connect/{R.exc_sig(ex)}',
                             f'{_cfg(case)}: {type(ex).__name__}: {ex}'[:300]))
             cmdib = None
+            # the application tries again with the same consumer object (stop_all + start_all, then restart):
+            # an incompatible peer has to be refused every time
+            if not expected_to_connect(case) and world.consumers and case.get('retry', True):
+                failed_consumer, _m, failed_server = world.consumers[-1]
+                for how in ('stop+start', 'restart'):
+                    try:
+                        if how == 'stop+start':
+                            failed_consumer.stop_all(unsubscribe=False)
+                            failed_consumer.start_all(shared_http_server=None if case['consumer_own_server'] else failed_server)
+                        else:
+                            failed_consumer.restart()
+                        out.append((f'{P}/incompatible-configuration-connected/after-{how}',
+                                    f'{_cfg(case)}: the second attempt ({how}) of the same consumer object succeeded'))
+                        break
+                    except Exception as ex2:  # noqa: BLE001
+                        if not R.exc_in_library(ex2) and not isinstance(ex2, (ssl.SSLError, OSError)):
+                            raise
         if stats['connected'] and not expected_to_connect(case):
             out.append((f'{P}/incompatible-configuration-connected', f'{_cfg(case)}: the consumer is connected'))
         consumer_port = None
@@ -254,6 +271,10 @@ def _history(world, consumer, cmdib, case, out) -> int:
                     sub.get_status()
             elif step == 'get':
                 consumer.client('Get').get_md_state([h])
+            elif step == 'restart':
+                if case['consumer_own_server']:  # (restart() with a shared server fails on re-registering its path)
+                    consumer.restart()
+                    n += 1
             elif step == 'unsubscribe_one':
                 subs = list(consumer.subscription_mgr.subscriptions.values())
                 if subs:
